@@ -107,3 +107,60 @@ theorem nextConfiguration_no_fatal (n : Node) (now : Nat) (c : Option Config) :
 
 end Node
 end Raft
+
+namespace Raft
+namespace Node
+
+theorem nextConfiguration_id (n : Node) (now : Nat) (c : Option Config) :
+    (n.nextConfiguration now c).1.id = n.id := by
+  unfold nextConfiguration
+  cases c with
+  | none => rfl
+  | some c =>
+    simp only
+    split
+    · rfl
+    · split <;> rfl
+
+theorem nextConfiguration_rvRounds (n : Node) (now : Nat) (c : Option Config) :
+    (n.nextConfiguration now c).1.rvRounds = n.rvRounds := by
+  unfold nextConfiguration
+  cases c with
+  | none => rfl
+  | some c =>
+    simp only
+    split
+    · rfl
+    · split <;> rfl
+
+theorem nextConfiguration_nextRound (n : Node) (now : Nat) (c : Option Config) :
+    (n.nextConfiguration now c).1.nextRound = n.nextRound := by
+  unfold nextConfiguration
+  cases c with
+  | none => rfl
+  | some c =>
+    simp only
+    split
+    · rfl
+    · split <;> rfl
+
+theorem nextConfiguration_config (n : Node) (now : Nat) (c : Config) :
+    (n.nextConfiguration now (some c)).1.config = c := by
+  unfold nextConfiguration
+  simp only
+
+theorem nextConfiguration_role_leader (n : Node) (now : Nat) (c : Option Config) :
+    (n.nextConfiguration now c).1.role = .leader → n.role = .leader := by
+  unfold nextConfiguration
+  cases c with
+  | none => exact fun h => h
+  | some c =>
+    simp only
+    split
+    · exact fun h => h
+    · split
+      · intro h; simp [stepdown, resetSnapshots] at h
+      · exact fun h => h
+
+end Node
+end Raft
